@@ -147,11 +147,10 @@ theorem enter_safe (P : Prog) (ee : EE) (hP : P.Safe ee) :
       have hok : (s.readLimit ee lim env.ctx).2.Ok := h.of_stuck (by simp)
       rw [show s.readLimit ee lim env.ctx = ((s.readLimit ee lim env.ctx).1, (s.readLimit ee lim env.ctx).2) from rfl]
       simp only [hn]
-      by_cases h0 : n ≤ 0
+      by_cases h0 : n < 1
       · simp only [h0, if_true]; exact ⟨hok, by simp [Run.Safe]⟩
-      · have hd : n.den = 1 := by rcases hw with h1 | h1; exact absurd h1 h0; exact h1
-        simp only [h0, if_false, hd, bne_self_eq_false, Bool.false_eq_true]
-        have := enterCalls_safe P ee hP f (List.replicate n.num.toNat c) env false
+      · simp only [h0, if_false]
+        have := enterCalls_safe P ee hP f (List.replicate n.floor.toNat c) env false
           (fun k => (var, k) :: env.binds) 0 (s.readLimit ee lim env.ctx).2.pend.length true _
           (by intro c' hc'; rw [List.eq_of_mem_replicate hc']; exact hc) hok
         split
